@@ -324,6 +324,8 @@ class Verifier:
             frame_locals[name] = I.fresh(parse_type(t), name)
             if name == "self":
                 selfv = frame_locals[name]
+        if c.options.get("closure") is not None:
+            frame_locals.setdefault(fnode.name, VFunc(fnode, None, ci, relpath, fnode.name))     # recursive calls go through the contract
         ghost_vals = {g: I.fresh(parse_type(t), g) for g, t in c.ghost_params.items()}
         if fnode.args.vararg is not None:
             frame_locals[fnode.args.vararg.arg] = VTuple([])
